@@ -884,7 +884,8 @@ def run(res, tier):
             detail["clang_args"] = c["clang_args"]
             res.violation(key, detail)
             nviol += 1
-        if not v and first_ok is None and cli is not None and len(c["dag"]["read"]) >= 3 and not c["special"]:
+        if not v and first_ok is None and cli is not None and not c["special"] and not c["virtual_root"] and \
+                len(set(c["dag"]["read"]) - set(c["roots"]) - set(c["pre"])) >= 1:
             first_ok = (c, cli)
     nenv = check_env(res, out, eexpect)
 
@@ -948,7 +949,11 @@ def run(res, tier):
     t, deps = read_depfile(cli["depfile"])
     # every spelling of one file that was read goes (a file can be listed as `./x.h` and `x.h`)
     esc = lambda x: x.replace("\\", "\\\\").replace(" ", "\\ ")
-    victim = norm(c, deps[-1])
+    byreal = {norm(c, r): f for f, r in c["rel"].items()}
+    cands = [x for x in deps if byreal.get(norm(c, x)) in set(c["dag"]["read"]) - set(c["roots"]) - set(c["pre"])]
+    if not cands:
+        raise C.ToolError("tamper self-test: no included file in the clean case")
+    victim = norm(c, cands[-1])
     dropped = dict(cli, depfile=esc(t) + ":" + "".join(" " + esc(x) for x in deps if norm(c, x) != victim))
     unread = [f for f in c["rel"] if f not in c["dag"]["read"]]
     tests = [("drop one prerequisite", dropped)]
